@@ -164,8 +164,11 @@ let handle kind c =
         | ORep (w, _, ps) ->
           let wn = String.sub name 6 (String.length name - 11) in
           if w <> wn then once "wrong_report" (name ^ " has Week " ^ w) prop07
-          else if uniform w then begin
-            let fw = week_files w in
+          else if uniform w || scen = "grow" then begin
+            (* scenario grow: sequential runs with different start times; the report is the LAST run's, for
+               which the week's files (in their final state) are expired *)
+            let fw = if uniform w then week_files w
+              else List.filter (fun x -> x.c_week = w && expired_for (List.nth cfgs (List.length cfgs - 1)) x) counts in
             let obs = List.map (fun (p, cs) -> (n_of_int p, List.map (fun (k, v) -> (n_of_int k, z_of_int v)) cs)) ps in
             let files_of xs = List.map (fun x -> (bytes_of_string x.c_name, x.c_cf)) xs in
             (* week_reports_ok (Model/Uploader.v): the program entries = the grouping of the week's
